@@ -17,7 +17,7 @@ sys.path.insert(0, HERE)
 from pyast import write_if_changed  # noqa: E402
 
 OUT = os.path.join(os.path.dirname(HERE), 'lean', 'PyIkev2', 'Gen')
-MODULES = ['gen_codec', 'gen_crypto', 'gen_machine', 'gen_layouts', 'gen_config', 'gen_log', 'gen_calls']
+MODULES = ['gen_codec', 'gen_crypto', 'gen_machine', 'gen_layouts', 'gen_config', 'gen_log', 'gen_calls', 'gen_auth']
 
 
 def main():
